@@ -117,12 +117,15 @@ impl<'input, E> Iterator for Matcher<'input, '_, E> {
             }
 
             let (match_state, longest_match) = match match_ {
-                Some(match_) => match_,
-                None => {
+                // A zero-length match makes no progress: yielding it (or skipping
+                // it) would leave us at the same offset forever, so it is treated
+                // like no match at all, whatever the pattern.
+                Some((_, 0)) | None => {
                     return Some(Err(ParseError::InvalidToken {
                         location: start_offset,
                     }));
                 }
+                Some(match_) => match_,
             };
             let index = (0..self.dfa.match_len(&self.cache, match_state))
                 .map(|n| {
@@ -140,11 +143,6 @@ impl<'input, E> Iterator for Matcher<'input, '_, E> {
             self.consumed = end_offset;
 
             if self.skip_vec[index] {
-                if longest_match == 0 {
-                    return Some(Err(ParseError::InvalidToken {
-                        location: start_offset,
-                    }));
-                }
                 continue;
             }
 
